@@ -20,7 +20,8 @@ import StraxModel.Model.NetPath
      wires the components with c06's `wire` (Model/Net.lean), finds the cheapest path source mailbox -> consumer subscription
      and evaluates the hypothesis and the bound of `dag_rest_bound` on it.
      answer `ok hyp=<pathOk 0/1> sole=<the consumer is the only reader of its subscription 0/1> B=<pathBound>
-     lagR=<pathLagR> path=<mailbox names joined by `>`> lags=<lag of every link joined by ,>`
+     lagR=<pathLagR> path=<mailbox names joined by `>`> lags=<lag of every link joined by ,>
+     gated=<names (sorted, joined by ,) of the mailboxes whose sender satisfies `senderOk`, the hypothesis of dag_lazy_gate; - if none>`
 -/
 namespace Strax.Driver.C13
 open Strax Strax.Mailbox Strax.Backpressure
@@ -108,7 +109,12 @@ def pathOp (net : Net.Net) : String :=
        | none => "err no-path"
        | some (_, m0, links) =>
          let names := (m0 :: links.map (·.mo)).map fun m => (net.mbs[m]?.map (·.name)).getD "?"
-         s!"ok hyp={b01 (pathOk net m0 links mk sk)} sole={b01 (soleReader net c mk sk)} B={pathBound net m0 links} lagR={pathLagR links} path={">".intercalate names} lags={",".intercalate (links.map fun L => toString L.lag)}")
+         let gated := ((List.range net.mbs.length).filterMap fun m =>
+           match senderOf net m with
+           | some t => if senderOk net t m then net.mbs[m]?.map (·.name) else none
+           | none => none).mergeSort (· ≤ ·)
+         let gatedS := if gated.isEmpty then "-" else ",".intercalate gated
+         s!"ok hyp={b01 (pathOk net m0 links mk sk)} sole={b01 (soleReader net c mk sk)} B={pathBound net m0 links} lagR={pathLagR links} path={">".intercalate names} lags={",".intercalate (links.map fun L => toString L.lag)} gated={gatedS}")
     | _ => "err consumer-subscriptions"
 
 open Strax.Net in
